@@ -164,6 +164,8 @@ def r3(run: Run, src):
     # 0 <= index < len(level); helpers of the class are analysed in place, guard clauses as nesting
     from .common import normalized_method, flat_conditions
     fc, fcn = normalized_method(src, 'Excel', '_fill_cell')
+    from ..inline import desugar
+    fcn = desugar(fcn)             # a local that names the bounds test is read as the test
     parents = parent_map(fcn)
     alias = {}
     for st in ast.walk(fcn):
